@@ -116,6 +116,51 @@ func runS3R(e *Env, cfg *RunCfg) {
 		if !check(i) {
 			return
 		}
+		if conflicts && method == "monitor_cond_since" && r.Intn(4) == 0 {
+			// cut in the middle of a burst of changes: the client resumes with
+			// found=true, nothing is purged, so the event log simply continues
+			s.mutateState()
+			if r.Intn(2) == 0 {
+				e.RunSteps(r.Intn(40))
+			}
+			ffBefore := s.sent["found_false"]
+			for _, l := range e.Sim.Net.Links() {
+				if !l.IsCut() {
+					if r.Intn(2) == 0 {
+						l.Cut()
+					} else {
+						l.CutEOF()
+					}
+					e.Faults["cut"]++
+				}
+			}
+			for k := 0; k < r.Intn(3); k++ {
+				s.mutateState()
+			}
+			ok := e.RunUntil(func() bool {
+				ok := false
+				e.Sim.Try(func() {
+					ok = e.Quiet() && ci.C.Connected() && countOpenMonitors(s.conns) > 0
+				})
+				return ok
+			})
+			if !ok {
+				if !e.Stopped() {
+					e.Abort("client did not come back after a cut: C16's concern")
+				}
+				return
+			}
+			if s.sent["found_false"] > ffBefore {
+				e.Abort("stub answered found=false: cache purged, event log restarts")
+				return
+			}
+			e.Probes["c14_resumed_found_true"]++
+			reconnected(ci)
+			if !check(1000 + i) {
+				return
+			}
+			continue
+		}
 		if conflicts && r.Intn(4) == 0 {
 			s.sendConflict()
 			e.Probes["stub_conflicting_notification"]++
@@ -142,6 +187,16 @@ func runS3R(e *Env, cfg *RunCfg) {
 		e.Probes["stub_"+k] += v
 	}
 	e.ShapeAdd(fmt.Sprintf("S3R %s %d", method, s.sent["notifications"]))
+}
+
+func countOpenMonitors(cs []*stubConn) int {
+	n := 0
+	for _, c := range cs {
+		if !c.closed {
+			n += len(c.monitors)
+		}
+	}
+	return n
 }
 
 func countOpen(cs []*stubConn) int {
@@ -479,6 +534,7 @@ func (s *stubServer) onFrame(c *stubConn, f []byte) {
 		var res any = tu
 		if msg.Method == "monitor_cond_since" {
 			res = []any{false, zeroUUID, tu}
+			s.sent["found_false"]++
 			var last string
 			if s.remember && len(msg.Params) >= 4 && json.Unmarshal(msg.Params[3], &last) == nil {
 				for k := range s.history {
@@ -486,6 +542,7 @@ func (s *stubServer) onFrame(c *stubConn, f []byte) {
 						// the id is known: answer with the changes since, and nothing else
 						res = []any{true, s.txnID(len(s.history)), s.delta(m, s.history[k], s.state)}
 						s.sent["found_true"]++
+						s.sent["found_false"]--
 						s.e.Probes["stub_found_true"]++
 					}
 				}
